@@ -14,13 +14,13 @@ Definition lewis_table : list (num A * num A) := map (fun r => (lit (fst (fst r)
 Definition worm_table : list (num A * num A * num A) :=
   map (fun r => (lit (fst (fst (fst r))) (snd (fst (fst r))), lit (fst (snd (fst r))) (snd (snd (fst r))), lit (fst (snd r)) (snd (snd r)))) gen_worm_table.
 
-(** scipy.interpolate.interp1d (linear, bounds_error=False, fill_value=(first, last)) *)
+(** scipy.interpolate.interp1d, linear, on 1-D float data: numpy.interp.  For x within [first knot, last knot]: the segment is the
+    one with x_j <= x < x_{j+1}; exactly at a knot the tabulated value itself is returned; the last knot returns the last value. *)
 Definition seg (x0 y0 x1 y1 x : num A) : num A := add (mul (div (sub y1 y0) (sub x1 x0)) (sub x x0)) y0.
 Fixpoint interp_segments (tbl : list (num A * num A)) (x : num A) : num A :=
   match tbl with
-  | (x0, y0) :: (((x1, y1) :: rest') as rest) =>
-      if leb x x1 then seg x0 y0 x1 y1 x
-      else match rest' with [] => seg x0 y0 x1 y1 x | _ => interp_segments rest x end
+  | (x0, y0) :: (((x1, y1) :: _) as rest) =>
+      if ltb x x1 then (if eqb x x0 then y0 else seg x0 y0 x1 y1 x) else interp_segments rest x
   | [(x0, y0)] => y0
   | [] => zero
   end.
